@@ -23,9 +23,27 @@ in-place (non-zero buffer) / out-of-place / in-place into the same, previously u
 and every result must equal that of a freshly built operator (``history_differs_from_fresh``);
 (c) the same for ``op.adjoint`` obtained once and reused.
 
-Arithmetic: for dyadic cell sides (1, 1/2, 1/4, 2) every quantity is a small dyadic rational, so
-equality is demanded to the last bit (float32 included).  For the non-dyadic cell sides
-(0.3, 0.7, 1.3) the tolerance is 4 * eps(dtype) * (largest magnitude of the compared reference).
+Regimes (small shapes of every ndim, every operator x method x mode x pad_const):
+* magnitude of the cell side: next to the special value 1 on both sides at the distances 2**-40
+  and 2**-18 (``near1``, ``near1m``: a tolerance where an exact comparison with 1 is meant, a
+  division skipped "for unit steps"), tiny (dyadic * 2**-30) and huge (dyadic * 2**20) cell
+  sides (a magnitude guard / absolute tolerance on dx or dx**2);
+* magnitude of the values: all inputs and the pad constant times 2**-40 / 2**40 (``vs``; a
+  "pad_const != 0" or "input is zero" decided with a tolerance);
+* sizes: one axis of 101 entries and a 12 x 11 grid (beyond the 100-entry switch of odl's element
+  arithmetic, which the adjoint ``-Op`` runs through); axes of length 1 beside the
+  differentiated axis (finite_diff / PartialDerivative);
+* calling conventions: only non-default keywords given (documented defaults), all arguments
+  positional (documented order), dx as Python int / numpy.float32, pad_const as Python int;
+  spaces with nodes on one boundary only and with a constant weighting other than the cell volume;
+* derived objects of derived objects: ``op.adjoint.adjoint`` (== op), ``op.derivative(p).adjoint``
+  of the affine variants (== transpose of the zero-padded matrix); documented default spaces
+  (``Gradient(dom).range == ProductSpace(dom, ndim)``, ``PartialDerivative(dom, ax).range == dom``).
+
+Arithmetic: for dyadic cell sides (1, 1/2, 1/4, 2, and these times a power of two) every quantity
+is a small dyadic rational times a power of two, so equality is demanded to the last bit (float32
+included).  For the other cell sides (0.3, 0.7, 1.3; 1 +- 2**-40, 1 +- 2**-18) the tolerance is
+4 * eps(dtype) * (largest magnitude of the compared reference).
 """
 import itertools
 
@@ -557,12 +575,18 @@ def _compare_images(rec, symptom, what, imgs, M, b, exact, eps):
                        _fmt(Yi[:, k]) if len(bad) == 2 else Yi.shape))
 
 
-def _check_operator(rec, cfg, build, M, b, affine, exact, eps, dual_div=None):
-    """All clauses for one odl operator against the reference ``x -> M x + b``."""
+def _check_operator(rec, cfg, build, M, b, affine, exact, eps, dual_div=None, spaces=None):
+    """All clauses for one odl operator against the reference ``x -> M x + b``.
+    ``spaces``: (domain, range) the documentation promises for the constructor variant (None:
+    not documented / given explicitly)."""
     cplx = cfg['dtype'] == 'complex128'
     name = CLS[cfg['kind']]
     op = _lib('constructor', build)
     dom, ran = op.domain, op.range
+    for which, got, want in zip(('domain', 'range'), (dom, ran), spaces or ()):
+        if want is not None and got != want:
+            rec.bad('default_space_wrong', '%s.%s is %r, documented: %r'
+                    % (name, which, got, want))
     nd, nr = S.flat_size(dom), S.flat_size(ran)
     if (nr, nd) != M.shape:
         rec.bad('matrix_differs', 'operator maps %d -> %d entries, expected %d -> %d'
@@ -880,6 +904,8 @@ def _run_op(rec, cfg):
             rec.ctx = 'axis=%d method=%s pad_mode=%s pad_const=%s var=%s' % (axis, method, mode,
                                                                              c, var)
             M, b = fd.partial(shape, axis, dxs[axis], method, mode, cref)
+            # "range : ... For the default ``None``, the range is the same as ``domain``."
+            spaces = None if var in ('explicit', 'otherprec') else (sp, sp)
             if var in ('default', 'bdry', 'minkw', 'weight', 'bdrymix', 'cint'):
                 build = lambda: odl.PartialDerivative(sp, axis, **kw)            # noqa: E731
             elif var == 'positional':
@@ -892,7 +918,7 @@ def _run_op(rec, cfg):
                     sp, axis, range=_space(shape, dtype, cfg['h'])[0], **kw)
             else:
                 build = lambda: odl.PartialDerivative(sp, axis, range=other, **kw)  # noqa: E731
-            _check_operator(rec, cfg, build, M, b, affine, exact, eps)
+            _check_operator(rec, cfg, build, M, b, affine, exact, eps, spaces=spaces)
         return
     rec.ctx = 'method=%s pad_mode=%s pad_const=%s var=%s' % (method, mode, c, var)
     if kind == 'grad':
@@ -913,7 +939,11 @@ def _run_op(rec, cfg):
         if var == 'domain':
             dual = lambda: odl.Divergence(range=sp, method=fd.METHOD_DUAL[method],  # noqa: E731
                                           pad_mode=fd.MODE_DUAL[mode])
-        _check_operator(rec, cfg, build, M, b, affine, exact, eps, dual_div=dual)
+        # docstring examples: Gradient(dom).range == ProductSpace(dom, dom.ndim),
+        # Gradient(range=ran).domain == dom
+        spaces = None if var == 'otherprec' else (sp, odl.ProductSpace(sp, nd))
+        _check_operator(rec, cfg, build, M, b, affine, exact, eps, dual_div=dual,
+                        spaces=spaces)
     elif kind == 'div':
         M, b = fd.divergence(shape, dxs, method, mode, cref)
         if var in ('range', 'bdry', 'minkw', 'weight', 'bdrymix', 'cint'):
@@ -928,7 +958,10 @@ def _run_op(rec, cfg):
             build = lambda: odl.Divergence(domain=sp ** nd, range=sp, **kw)       # noqa: E731
         else:
             build = lambda: odl.Divergence(domain=sp ** nd, range=other, **kw)    # noqa: E731
-        _check_operator(rec, cfg, build, M, b, affine, exact, eps)
+        # docstring examples: Divergence(dom).range == ran, Divergence(range=ran).domain ==
+        # ProductSpace(ran, ran.ndim)
+        spaces = None if var == 'otherprec' else (odl.ProductSpace(sp, nd), sp)
+        _check_operator(rec, cfg, build, M, b, affine, exact, eps, spaces=spaces)
     elif kind == 'lap':
         M, b = fd.laplacian(shape, dxs, mode, cref)
         if var in ('default', 'bdry', 'minkw', 'weight', 'bdrymix', 'cint'):
@@ -999,8 +1032,9 @@ def meta(tier):
     shapes = _shapes(tier)
     return {
         'rule': 'one state = (finite_diff | PartialDerivative | Gradient | Divergence | '
-                'Laplacian) x method x pad_mode x pad_const x shape x dtype x cell sides x '
-                'constructor/layout variant; all inputs are decided by affinity: every basis '
+                'Laplacian) x method x pad_mode x pad_const x shape x dtype x cell sides '
+                '(incl. magnitude regimes: next to 1, tiny, huge) x magnitude of the values x '
+                'constructor/layout/calling-convention variant; all inputs are decided by affinity: every basis '
                 'vector e_k (and 1j*e_k on complex spaces), the zero vector, three dense probe '
                 'vectors and all of V^N for N <= 4 are executed out of place and in place, for '
                 'the operator, its .adjoint and its .derivative(point), and compared with the '
@@ -1009,7 +1043,7 @@ def meta(tier):
                 'the used operator object and its adjoint obtained once run a 7-step in-place '
                 '(reused non-zero buffer) / out-of-place sequence against freshly built '
                 'operators. distinct = distinct (operator, '
-                'method, mode, c != 0, smallest axis size class 2|3|>=4, ndim, outcome, '
+                'method, mode, c != 0, smallest axis size class 2|3|>=4, ndim, outcome, regime, '
                 'executed-line signature of the anchored functions)',
         'bounds': {
             'methods': list(fd.METHODS), 'pad_modes': list(fd.MODES),
@@ -1025,7 +1059,13 @@ def meta(tier):
                                                              if len(s) == 3))),
             'dtype_x_cell_sides': 'all 9' if tier == 'thorough' else
                                   'f64/unit, f64/nondyadic, f32/dyadic, c128/dyadic',
-            'cell_sides_per_axis': H,
+            'cell_sides_per_axis': dict((k, [repr(x) for x in v]) for k, v in H.items()),
+            'cell_side_regimes': {'regimes': list(REGIME_HS), 'shapes': REGIME_SHAPES,
+                                  'dtype_x_regime': 'all 12' if tier == 'thorough' else
+                                  'f64/near1, f64/near1m, f32/near1m, f64/tiny, f32/huge, '
+                                  'c128/huge'},
+            'value_scales_2**k (inputs and pad_const)': list(VALUE_SCALES),
+            'large_shapes': LARGE_SHAPES, 'shapes_with_axes_of_length_1 (fd, pd)': ONE_SHAPES,
             'variants': VARIANTS, 'variant_shapes': VAR_SHAPES,
             'V_small': list(V_SMALL),
         },
@@ -1040,12 +1080,20 @@ def meta(tier):
             "methods) and order2 (central) this equals the stencil on the linearly / "
             "quadratically extrapolated array",
             'order2 and order2_adjoint are enumerated for axis sizes >= 3 only (documented '
-            'minimum); an axis of size 1 is never enumerated',
+            'minimum); an axis of size 1 is never the differentiated one',
             'adjoint == transpose is demanded only when domain and range carry the same '
             'constant weight (always the case here: range must equal domain up to dtype); the '
             'adjoint of the affine variants is not judged',
-            'exact equality for dyadic cell sides; 4*eps*max|reference| for (0.3, 0.7, 1.3); '
-            'the reference is assembled in extended precision',
+            'exact equality for dyadic cell sides (also times 2**-30 / 2**20, and with all values '
+            'times 2**-40 / 2**40); 4*eps*max|reference| for (0.3, 0.7, 1.3) and for the cell '
+            'sides 1 +- 2**-40, 1 +- 2**-18; the reference is assembled in extended precision',
+            'every positive finite float is an admissible cell side ("dx : float ... Scalar '
+            'specifying the distance between sampling points"), a Python int or numpy.float32 '
+            'scalar is an admissible dx, a Python int an admissible pad_const; an axis of length '
+            '1 is admissible for finite_diff / PartialDerivative when it is not the '
+            'differentiated one ("in axis {}: at least two elements required")',
+            'default spaces are judged where documented (PartialDerivative range, Gradient / '
+            'Divergence docstring examples); the undocumented range of Laplacian is not',
             'explicit out arrays are prefilled with the finite value 7.25 (NaN-filled out is '
             "C03's business); out=None paths see NaN-poisoned numpy.empty",
         ],
